@@ -1,0 +1,23 @@
+//go:build verif
+
+package verifhook
+
+import "sync/atomic"
+
+var cb atomic.Value // func(string)
+
+// Set installs the yield callback (nil to remove).
+func Set(f func(string)) {
+	if f == nil {
+		cb.Store((func(string))(nil))
+		return
+	}
+	cb.Store(f)
+}
+
+// Yield is a named scheduling point.
+func Yield(point string) {
+	if f, _ := cb.Load().(func(string)); f != nil {
+		f(point)
+	}
+}
